@@ -240,7 +240,7 @@ Lemma expand_arr_rep_ty tag v c k :
   expand crate_decls MArr (InSemi (User tag v c) (TyLen k))
   = Some (ConstItem CInputLength (Usize (TyLen k))
             (LocalFn true (CRef CInputLength)
-               (Call FConstTransmute (Some TyParamN) (SCons Param SNil))
+               (UnsafeBlk (Call FConstTransmute (Some TyParamN) (SCons Param SNil)))
                (Call FLocal (Some (TyLen k))
                   (SCons (ArrayRepeat (User tag v c) (CRef CInputLength)) SNil)))).
 Proof. reflexivity. Qed.
@@ -374,7 +374,7 @@ Proof.
   replace (expand crate_decls MArr (InSemi (ConstPath v) (TyLen k)))
     with (Some (ConstItem CInputLength (Usize (TyLen k))
             (LocalFn true (CRef CInputLength)
-               (Call FConstTransmute (Some TyParamN) (SCons Param SNil))
+               (UnsafeBlk (Call FConstTransmute (Some TyParamN) (SCons Param SNil)))
                (Call FLocal (Some (TyLen k))
                   (SCons (ArrayRepeat (ConstPath v) (CRef CInputLength)) SNil))))) by reflexivity.
   cbn.
@@ -406,7 +406,7 @@ Proof.
   - replace (expand crate_decls MArr (InSemi (User tag v c) (ConstPath k)))
       with (Some (ConstItem CInputLength (Usize (ConstPath k))
             (LocalFn true (CRef CInputLength)
-               (Call FConstTransmute (Some TyParamN) (SCons Param SNil))
+               (UnsafeBlk (Call FConstTransmute (Some TyParamN) (SCons Param SNil)))
                (Call FLocal (Some (ConstPath k))
                   (SCons (ArrayRepeat (User tag v c) (CRef CInputLength)) SNil))))) by reflexivity.
     eexists; reflexivity.
@@ -607,3 +607,72 @@ Example ex_non_copy_repeat :
   /\ run crate_decls w_string Runtime MBoxArr (InSemi (User 0 7 false) (TyLen 2))
      = Done (VBox 2 [VE 7; VE 7], [LEval 0; LClone (VE 7)]).
 Proof. split; reflexivity. Qed.
+
+(* ---------------------------------------------------------------- unsafe hygiene
+   No fragment written by the caller ends up inside an `unsafe { }` block of an expansion: the caller's element
+   and length expressions are compiled in the safety context the caller wrote them in.  (The one unsafe block of
+   the arms, around const_transmute, sits in the body of the local fn and contains only that fn's parameter.) *)
+Definition is_caller (t : term) : bool :=
+  match t with User _ _ _ | TyLen _ | ConstPath _ => true | _ => false end.
+
+Lemma exposed_users inu us : exposed_seq inu (seq_of (map mk_user us)) = inu && negb (match us with [] => true | _ => false end).
+Proof.
+  induction us as [|[[t v] c] us IH]; cbn [map seq_of exposed_seq mk_user exposed].
+  - now rewrite Bool.andb_false_r.
+  - rewrite IH. destruct inu, us; reflexivity.
+Qed.
+
+Lemma exposed_units inu (us : list uexpr) : exposed_seq inu (seq_of (map (fun _ => UnitLit) us)) = false.
+Proof. induction us as [|u us IH]; cbn [map seq_of exposed_seq exposed]; [reflexivity|exact IH]. Qed.
+
+Theorem unsafe_hygiene_lists us trailing :
+  (exists t, expand crate_decls MArr (InList (map mk_user us) trailing) = Some t /\ exposed false t = false) /\
+  (exists t, expand crate_decls MBoxArr (InList (map mk_user us) trailing) = Some t /\ exposed false t = false).
+Proof.
+  split; eexists; (split; [first [apply expand_arr_list | apply expand_box_list]|]).
+  - cbn [exposed exposed_seq]. rewrite exposed_users. reflexivity.
+  - cbn [exposed exposed_seq]. rewrite exposed_users, exposed_units. reflexivity.
+Qed.
+
+Theorem unsafe_hygiene_repeat m tag v c n : is_caller n = true ->
+  match expand crate_decls m (InSemi (User tag v c) n) with
+  | Some t => exposed false t = false
+  | None => True
+  end.
+Proof.
+  intros Hn. destruct n; try discriminate Hn; destruct m; try exact I; reflexivity.
+Qed.
+
+(* the arms as data: no metavariable occurs under an unsafe block *)
+Theorem arms_hygienic :
+  forallb (fun a => negb (exposed false (arm_body a)))
+          (arms_of crate_decls MArr ++ arms_of crate_decls MBoxArr ++ arms_of crate_decls MBoxArrHelper) = true.
+Proof. reflexivity. Qed.
+
+(* discrimination: wrapping the CALL of the local fn in `unsafe { }` (a `const unsafe fn` helper) puts $x inside *)
+Definition arr_rep_ty_arm_unsafe_call : term :=
+  ConstItem CInputLength (Usize (MV MVN))
+    (LocalFn true (CRef CInputLength)
+       (Call FConstTransmute (Some TyParamN) (SCons Param SNil))
+       (UnsafeBlk (Call FLocal (Some (MV MVN)) (SCons (ArrayRepeat (MV MVx) (CRef CInputLength)) SNil)))).
+
+Lemma unsafe_call_refuted :
+  exposed false arr_rep_ty_arm_unsafe_call = true /\
+  forall tag v c k, exposed false (subst (upd_bind (upd_bind no_bind MVx (One (User tag v c))) MVN (One (TyLen k)))
+                                         arr_rep_ty_arm_unsafe_call) = true.
+Proof. split; [reflexivity|intros; reflexivity]. Qed.
+
+(* ---------------------------------------------------------------- an element compiled out by cfg
+   `#[cfg(any())] e` in a list position is not there: arr! (like the native literal) denotes the list without it.
+   box_arr! deduces its length from one `box_arr_helper!(@unit $x)` per written element, and that expansion is `()`
+   whatever `$x` is -- the attribute is gone -- while the vec! literal loses the element: the lengths disagree and
+   `__from_vec_helper` runs `unwrap_unchecked` on `Err(LengthError)`. *)
+Definition w_all : world := mkWorld 4 true (fun _ => true).
+
+Theorem box_list_cfg_out_refuted :
+  run crate_decls w_all Runtime MArr (InList [CfgOut (User 0 3 false); User 1 10 false] 0)
+    = Done (VGA 1 [VE 10], [LEval 1]) /\
+  run crate_decls w_all Runtime MBoxArr (InList [User 1 10 false] 0)
+    = Done (VBox 1 [VE 10], [LEval 1]) /\
+  run crate_decls w_all Runtime MBoxArr (InList [CfgOut (User 0 3 false); User 1 10 false] 0) = UBhit.
+Proof. repeat split; vm_compute; reflexivity. Qed.
